@@ -6,6 +6,7 @@ import (
 	"encoding/json"
 	"errors"
 	"fmt"
+	"github.com/ipfs/ipfs-cluster/consensus/raft"
 	"os"
 	"sort"
 	"strings"
@@ -38,6 +39,8 @@ type config struct {
 	// consensus call writes nothing, so a request that needed it must report
 	// an error: a success would acknowledge a change that was not made.
 	ConsFail string
+	// Raft: the peer runs the real single-peer Raft consensus component.
+	Raft bool
 }
 
 func (c config) String() string {
@@ -48,6 +51,9 @@ func (c config) String() string {
 	if c.ConsFail != "" {
 		f += "+consensus-fails:" + c.ConsFail
 	}
+	if c.Raft {
+		f += "+raft"
+	}
 	return fmt.Sprintf("rf=%d/%d,%s", c.Min, c.Max, f)
 }
 
@@ -55,13 +61,14 @@ var factorConfigs = []config{{Min: -1, Max: -1}, {Min: 1, Max: 2}, {Min: 2, Max:
 
 // rig is one real single-peer Cluster inside the current bubble.
 type rig struct {
-	cfg   config
-	p     *clus.Peer
-	h     host.Host
-	sh    *clus.Shared
-	store ds.Datastore
-	ipfs  *clus.IPFS
-	ctx   context.Context
+	cfg     config
+	p       *clus.Peer
+	h       host.Host
+	sh      *clus.Shared
+	store   ds.Datastore
+	ipfs    *clus.IPFS
+	ctx     context.Context
+	raftDir string
 }
 
 // newRig builds the peer: real Cluster, recording in-memory consensus over a
@@ -73,8 +80,29 @@ func newRig(t *testing.T, cfg config, track bool) *rig {
 	r := &rig{cfg: cfg, h: hosts[0], ctx: ctx}
 	r.sh = &clus.Shared{PeerSet: []peer.ID{P0, P1, P2}}
 	r.freshState()
-	cons := clus.NewMemConsensus(P0, r.sh)
-	cons.NoTrack = !track
+	var cons ipfscluster.Consensus
+	if cfg.Raft {
+		// the real Raft consensus component (single peer) instead of the
+		// recording in-memory one: what is stored is what its FSM applied
+		dir, err := os.MkdirTemp(os.Getenv("VERIF_SCRATCH"), "c04raft")
+		if err != nil {
+			t.Fatal(err)
+		}
+		r.raftDir = dir
+		rcfg := &raft.Config{}
+		rcfg.Default()
+		rcfg.DataFolder = dir
+		rcfg.InitPeerset = []peer.ID{hosts[0].ID()}
+		rc, err := raft.NewConsensus(hosts[0], rcfg, inmem.New(), false)
+		if err != nil {
+			t.Fatal(err)
+		}
+		cons = rc
+	} else {
+		mc := clus.NewMemConsensus(P0, r.sh)
+		mc.NoTrack = !track
+		cons = mc
+	}
 	r.ipfs = clus.NewIPFS()
 	r.ipfs.ResolveF = func(path string) (cid.Cid, error) {
 		if l, ok := pathTable[path]; ok {
@@ -126,6 +154,9 @@ func newRig(t *testing.T, cfg config, track bool) *rig {
 func (r *rig) stop() {
 	r.p.Stop()
 	r.h.Close()
+	if r.raftDir != "" {
+		os.RemoveAll(r.raftDir)
+	}
 }
 
 // freshState swaps an empty dsstate (over a datastore the rig can dump) under
